@@ -380,8 +380,13 @@ def standard_flow(ctx: Ctx, mod):
     ctx.cov["checker_cmd"] = "cd lean && lake build " + " ".join(ob["modules"]) + \
         " && lake env lean .audit/%s.lean  (#print axioms)" % prop + \
         (" && lake env leanchecker " + " ".join(ob["modules"]) if ctx.thorough else "")
-    # 3. correspondence
-    if ok and hasattr(mod, "correspond"):
+    # 3. correspondence (also when a proof module no longer builds, as long as the executable model itself does:
+    #    where model and code part ways tells the search where to look)
+    drv_ok = ok
+    if not ok and ob.get("driver_modules"):
+        drv_ok, _ = lake_build(list(ob["driver_modules"]))
+        ctx.cov["driver_built_after_proof_failure"] = drv_ok
+    if drv_ok and hasattr(mod, "correspond"):
         try:
             mod.correspond(ctx)
         except DriverError as e:
